@@ -1,3 +1,5 @@
 import ArroyProofs.KeyLemmas
 import ArroyProofs.Properties.C16
 import ArroyProofs.AuditCmd
+import ArroyProofs.StoreLemmas
+import ArroyProofs.Heap
